@@ -36,6 +36,10 @@ pub enum Fault {
 	ArrayWithId(u8),
 	HugeArray(u8),
 	Bytes(Vec<u8>),
+	/// a batch-shaped reply whose ids lie very far apart
+	ArrayIdRange(u8),
+	/// (client with WebSocket pings enabled) the write of a ping fails
+	PingFails,
 }
 
 #[derive(Clone, Debug, Serialize, Deserialize)]
@@ -55,7 +59,7 @@ pub const NOT_RPC: [&str; 8] = ["{}", "7", "null", "\"x\"", "{\"jsonrpc\":\"2.0\
 pub fn fault_message(f: &Fault, string_ids: bool) -> Option<Vec<u8>> {
 	let id = |n: u64| if string_ids { json!(n.to_string()) } else { json!(n) };
 	Some(match f {
-		Fault::SendError | Fault::SendErrorOnUnsubscribe | Fault::ReceiveError | Fault::PeerGone => return None,
+		Fault::SendError | Fault::SendErrorOnUnsubscribe | Fault::ReceiveError | Fault::PeerGone | Fault::PingFails => return None,
 		Fault::LongJunk(pad, kind) => {
 			let unit = ["€", "é", "😀", "中"][*kind as usize % 4];
 			let body = format!("{}{}", "a".repeat(*pad as usize % 8), unit.repeat(300));
@@ -113,6 +117,15 @@ pub fn fault_message(f: &Fault, string_ids: bool) -> Option<Vec<u8>> {
 			s.into_bytes()
 		}
 		Fault::Bytes(b) => b.clone(),
+		Fault::ArrayIdRange(i) => {
+			let (a, b) = match i % 4 {
+				0 => (0u64, u64::MAX - 1),
+				1 => (5, u64::MAX),
+				2 => (0, 1u64 << 62),
+				_ => (u64::MAX - 1, u64::MAX),
+			};
+			json!([{"jsonrpc":"2.0","id":id(a),"result":1},{"jsonrpc":"2.0","id":id(b),"result":2}]).to_string().into_bytes()
+		}
 	})
 }
 
@@ -148,7 +161,7 @@ pub struct Faults;
 
 pub async fn run_fault_case(case: &C09Case, obs: &mut Obs) {
 	crate::panics::clear_local();
-	let mut w = World::new(ClientCfg { id_kind: case.id_kind, ..ClientCfg::default() });
+	let mut w = World::new(ClientCfg { id_kind: case.id_kind, ping: case.fault == Fault::PingFails, ..ClientCfg::default() });
 	// ---- the history before the fault
 	let mut want_before: Vec<Option<Outcome>> = vec![];
 	for p in &case.pre {
@@ -234,6 +247,10 @@ pub async fn run_fault_case(case: &C09Case, obs: &mut Obs) {
 		Fault::PeerGone => {
 			marker = Some("peer-closed".into());
 			w.mc.push_err("peer-closed");
+		}
+		Fault::PingFails => {
+			marker = Some("injected-ping-failure".into());
+			*w.mc.shared.ping_fail.lock() = Some("injected-ping-failure".into());
 		}
 		f => {
 			marker = None;
@@ -449,6 +466,8 @@ impl SubCheck for Faults {
 			1 => Just(Fault::EmptyArray),
 			1 => (0u8..4).prop_map(Fault::JunkArray),
 			2 => (0u8..6).prop_map(Fault::ArrayWithId),
+			1 => (0u8..4).prop_map(Fault::ArrayIdRange),
+			2 => Just(Fault::PingFails),
 			2 => proptest::collection::vec(any::<u8>(), 0..40).prop_map(Fault::Bytes),
 			2 => (crate::props::c01::arb_msg(2)).prop_map(|m| Fault::Bytes(crate::props::c01::render_msg(&m))),
 		];
@@ -478,7 +497,10 @@ pub fn enumerated_cases(tier: Tier) -> Vec<C09Case> {
 		Pre::Batch { n: 3, answered: true },
 		Pre::Notify,
 	];
-	let mut faults = vec![Fault::SendError, Fault::SendErrorOnUnsubscribe, Fault::ReceiveError, Fault::PeerGone, Fault::EmptyArray];
+	let mut faults = vec![Fault::SendError, Fault::SendErrorOnUnsubscribe, Fault::ReceiveError, Fault::PeerGone, Fault::EmptyArray, Fault::PingFails];
+	for i in 0..4 {
+		faults.push(Fault::ArrayIdRange(i));
+	}
 	for pad in 0..4 {
 		for kind in [0u8, 2, 5, 11] {
 			faults.push(Fault::LongJunk(pad, kind));
